@@ -181,8 +181,27 @@ func c13StatusFact(ks []int64) c13Fact {
 var c13LengthFact = c13Fact{ID: "length", Use: func(fn *ssa.Function, resp map[ssa.Value]bool, _ map[ssa.Value]int64) ([]Edge, []ssa.Value) {
 	cl := c13FieldLoads(fn, c13PkgHTTP, "Response", "ContentLength", c13RespBase(resp))
 	size := c13FieldLoads(fn, c13PkgOCI, "Descriptor", "Size", nil)
-	eq, _ := c13EqualEdges(fn, cl, size)
-	return append(eq, c13TestsOf(fn, cl).lt0...), nil
+	class := func(cond ssa.Value) (bool, bool) {
+		op, other, ok := c13CmpNorm(cond, cl)
+		if !ok {
+			return false, false
+		}
+		if size[other] {
+			return op == token.EQL, op == token.NEQ
+		}
+		k, isC := c13ConstInt(other)
+		if !isC {
+			return false, false
+		}
+		switch { // edges on which the length is unknown (negative)
+		case op == token.EQL && k < 0, op == token.LSS && k <= 0, op == token.LEQ && k < 0:
+			return true, false
+		case op == token.NEQ && k == -1, op == token.GEQ && k == 0, op == token.GTR && k == -1:
+			return false, true
+		}
+		return false, false
+	}
+	return c13FactEdgesOfConds(fn, class), nil
 }}
 
 // c13MediaTypeFact: the parsed Content-Type of resp equals the MediaType of a descriptor of the function.
